@@ -25,6 +25,13 @@ static const char *NAMES[] = {"a", "b", "c", "dir with space", "x.y", ".hidden",
                               "LLLLLLLLLLLLLLLLLLLLLLLLLLLLLLLLLLLLLLLLLLLLLLLLLLLLLLLLLLLLLLLLLLLLLLLLLLLLLLLLLLLLLLLLLLLLLLLLLLLLLLLLLLLLLLLLLLLLLLLLLLLLLLLLLLLLLLLLLLLLLLLLLLLLLLLLLLLLLLLL",
                               "MMMMMMMMMMMMMMMMMMMMMMMMMMMMMMMMMMMMMMMMMMMMMMMMMMMMMMMMMMMMMMMMMMMMMMMMMMMMMMMMMMMMMMMMMMMMMMMMMMMMMMMMMMMMMMMMMMMMMMMMMMMMMMMMMMMMMMMMMMMMMMMMMMMMMMMMMMMMMMMMMMMMMMMMMMMMMMMMMMMMMMMMMMMMMM"};
 static const int NNAMES = 17;
+// a directory with a large fan-out is filled with files g00000, g00001, ... (ids 1000, 1001, ...)
+static std::string bulkName(int64_t id) { char b[16]; snprintf(b, sizeof b, "g%05d", (int) (id - 1000)); return b; }
+static int64_t bulkId(const std::string &n) {
+    if (n.size() != 6 || n[0] != 'g') return -99;
+    for (size_t i = 1; i < 6; ++i) if (n[i] < '0' || n[i] > '9') return -99;
+    return 1000 + atoi(n.c_str() + 1);
+}
 static int counter = 0;
 
 static std::string str(const Line &v) { std::string s; for (auto c : v) s.push_back((char) (unsigned char) c); return s; }
@@ -57,6 +64,7 @@ int main() {
         auto pathOf = [&](const Line &l, size_t from, bool &ok) {
             std::string p = root;
             for (size_t i = from; i < l.size(); ++i) {
+                if (l[i] >= 1000 && l[i] < 1000 + 100000) { p += "/" + bulkName(l[i]); continue; }   // entries of a bulk-filled directory
                 if (l[i] < 0 || l[i] >= NNAMES) { ok = false; return p; }
                 p += "/"; p += NAMES[l[i]];
             }
@@ -101,6 +109,15 @@ int main() {
                 if (l[0] == 40) fs::create_directory(p);
                 else if (l[1] > (1 << 20)) { { std::ofstream f(p, std::ios::binary); } fs::resize_file(p, (uintmax_t) l[1]); }   // sparse: sizes beyond 2^31 / 2^32
                 else { std::ofstream f(p, std::ios::binary); std::string blob((size_t) l[1], 'x'); f.write(blob.data(), (std::streamsize) blob.size()); }
+                out.push_back(1);
+                break;
+            }
+            case 43: {
+                // fill the directory p with k one-byte files g00000 .. (large fan-out: directory listings that need several reads)
+                if (l.size() < 2 || l[1] < 1 || l[1] > 5000) { ok = false; break; }
+                std::string p = pathOf(l, 2, ok); if (!ok) break;
+                if (!fs::is_directory(p) || fs::is_symlink(p) || fs::exists(p + "/" + bulkName(1000))) { ok = false; break; }
+                for (int64_t i2 = 0; i2 < l[1]; ++i2) { std::ofstream f2(p + "/" + bulkName(1000 + i2), std::ios::binary); f2.put('x'); }
                 out.push_back(1);
                 break;
             }
@@ -151,6 +168,7 @@ int main() {
                         got.push_back(ch.toString());
                         int64_t id = -99;
                         for (int k = 0; k < NNAMES; ++k) if (ch.toString() == NAMES[k]) id = k;
+                        if (id == -99) id = bulkId(ch.toString());
                         ids.push_back(id);
                     }
                     std::sort(ids.begin(), ids.end());
@@ -208,7 +226,7 @@ int main() {
                     try {
                         auto children = pp.listChildren();
                         std::vector<int64_t> ids;
-                        for (auto &ch : children) { int64_t id = -99; for (int k = 0; k < NNAMES; ++k) if (ch.toString() == NAMES[k]) id = k; ids.push_back(id); }
+                        for (auto &ch : children) { int64_t id = -99; for (int k = 0; k < NNAMES; ++k) if (ch.toString() == NAMES[k]) id = k; if (id == -99) id = bulkId(ch.toString()); ids.push_back(id); }
                         std::sort(ids.begin(), ids.end());
                         out.push_back((int64_t) ids.size()); out.insert(out.end(), ids.begin(), ids.end());
                         if (!fs::is_directory(p)) oracle_fail("C18: listChildren returned for something that is not a directory");
